@@ -53,7 +53,37 @@ def donor_slip_variants(asr, n_other=0, max_records=13):
             out.append([q if j != i else [a_s, a_e, donor, uniq] for j, q in enumerate(asr)])
     return out
 
+F_STOPLOSS = 'C01-stoploss'
+
+def classify_missing(evs):
+    """missing obliged peptides of AS cases: C01-stoploss on the AS backbone (the event removes the stop codon or
+    shifts the frame, translation reads into the 3'UTR; products wholly behind the annotated stop codon that carry
+    no record themselves are not reported)"""
+    from harness.lib import gen_reference as G
+    for ev in evs:
+        c = ev.case
+        if ev.exc or not ev.missing or not c.get('as_records'):
+            continue
+        todo = [p for p, t in ev.missing.items() if t is None]
+        if not todo:
+            continue
+        prots = CG.proteome(c['world'])
+        acc = [False] * len(todo)
+        for tx_id in sorted(set(r['tx'] for r in c['as_records'])):
+            gene = next(g for g in c['world']['genes'] if any(t['id'] == tx_id for t in g['transcripts']))
+            tx = next(t for t in gene['transcripts'] if t['id'] == tx_id)
+            if not tx['cds']:
+                continue
+            x = CG.tx_input(c, tx_id, ev.recs.get(tx_id, []), ev.run, prots)
+            for a in CG2.as_inputs(c, tx_id):
+                o = O.call('cv_as_stoploss', [x, a, tx['cds'][1], todo])
+                acc = [u or bool(w) for u, w in zip(acc, o)]
+        for p, h in zip(todo, acc):
+            if h:
+                ev.missing[p] = F_STOPLOSS
+
 def classify(evs):
+    classify_missing(evs)
     for ev in evs:
         if ev.exc or not ev.extra:
             continue
